@@ -131,4 +131,39 @@ theorem published_lists_ready (ci : CfgInput) (ops : List Op) (st : CState) (l :
   have h2 := (published_matches_pool ci ops (st, .gcp l) hq).2
   exact rdy_run ci ops l h2.symm
 
+/-- the stream count of an existing slot is the number of calls in flight that were placed on it -/
+theorem streamsOf_eq_inflight (ci : CfgInput) (ops : List Op) (j : Slot) (hj : j < (run (init ci) ops).refs.length) :
+    streamsOf (run (init ci) ops) j = ((((run (init ci) ops).calls.map (·.slot)).filter (· == j)).length : Int) := by
+  have h := streams_exact ci ops
+  generalize run (init ci) ops = s at h hj
+  simp only [streamsExact, List.all_eq_true, List.mem_range] at h
+  have := h j hj
+  unfold streamsOf getRef
+  cases hr : s.refs[j]? with
+  | none =>
+    rw [List.getElem?_eq_none_iff] at hr
+    exact absurd hj (Nat.not_lt.mpr hr)
+  | some r =>
+    rw [hr] at this
+    simpa using this
+
+/-- **C03 (reach level)** after any history, the plain-pick path adds a channel only if every channel of
+    the ready list it scans really carries at least `watermark` calls whose completion has not run
+    (the count is taken from the history of placements and completions, not from a counter), the pool
+    is below maxSize and no connection is idle or connecting — and then the call is told to wait -/
+theorem growth_needs_real_load (ci : CfgInput) (ops : List Op) {s' : St} {c : Cfg} {l : List Slot}
+    {r : Option Slot} {ev : List Event}
+    (h : getLeastBusy (run (init ci) ops) c l = (s', r, ev)) (hev : ev ≠ []) :
+    r = none ∧
+    (∀ j ∈ l, j < (run (init ci) ops).refs.length →
+      c.wm ≤ (((run (init ci) ops).calls.map (·.slot)).filter (· == j)).length) ∧
+    (c.max = 0 ∨ (run (init ci) ops).scRefs.length < c.max) ∧
+    (run (init ci) ops).scStates.any (fun p => p.2 == .connecting || p.2 == .idle) = false := by
+  obtain ⟨h1, h2, h3, h4⟩ := growth_only_when_saturated h hev
+  refine ⟨h1, ?_, h3, h4⟩
+  intro j hj hlt
+  have := h2 j hj
+  rw [streamsOf_eq_inflight ci ops j hlt] at this
+  exact_mod_cast this
+
 end GcpVerif.Pool
